@@ -197,8 +197,8 @@ def exc_call_order(run, snap, exc, args, kwargs):
 def attach_all(run, rt):
     import cnvlib.segfilters as F
     import cnvlib.call as C
-    traced = [("segfilters.squash_by_groups", F.squash_by_groups), ("segfilters.squash_region", F.squash_region),
-              ("segfilters.enumerate_changes", F.enumerate_changes)]
+    traced = [("segfilters.squash_by_groups", rt.opt(F, "squash_by_groups")), ("segfilters.squash_region", rt.opt(F, "squash_region")),
+              ("segfilters.enumerate_changes", rt.opt(F, "enumerate_changes"))]
     for filt in ("cn", "ci", "sem", "ampdel"):
         traced.append((f"segfilters.{filt}", getattr(F, filt)))
         rt.attach(F, filt, name=f"segfilters.{filt}", pre=make_pre(filt), post=make_post(filt), on_exc=make_exc(filt))
